@@ -14,7 +14,7 @@ RULE = ("families: (A) instruction-level captures: every item sequence of length
         "capture, optionally preceded by a non-capturing repeated/alternative/negated item, later occurrences also inside "
         "$or/$not/$and-with-times; (B) operand-level captures: every pair of 'mov' items whose operand lists are drawn "
         "from {&x,&y,rax} (length 1..2), later occurrences inside operand-level $or/$not and in a following instruction; "
-        "(C) prefix/extension operands (0x1/0x10, %r8/%r8d) as first, middle and last operand; (D) 11 and 25 distinct names "
+        "(C) prefix/extension operands (0x1/0x10, %r8/%r8d) as first, middle and last operand; (D) 11 and 25 distinct names, a register-family name as 11th name "
         "(back-references \\10, \\11) with every combination of bound values in the checking instruction; (E) [E4: two family names defined in both orders, with/without a preceding plain capture, names with an inner dot] register "
         "families &genreg/&indreg/&stackreg/&basereg: every (first-suffix, later-suffix) pair from {none,.64,.32,.16,.8h,"
         ".8l,.8H,.8L} x every pair of operands from all family register names plus look-alikes (0x1, %r8, other-family "
@@ -85,7 +85,10 @@ def fam_c(tier):
                 [{"push": ["&x"]}, {"mov": ["r8", "&x"]}], [{"mov": ["&x", "&y"]}, {"mov": ["&x", "&y"]}],
                 [{"mov": ["&x", "&y"]}, {"mov": ["&y", "&x"]}], [{"push": ["&x"]}, {"imul": ["&x"]}],
                 [{"push": ["&x"]}, {"imul": ["0x1", "&x"]}], [{"push": ["&x"]}, {"imul": ["0x1", "r8", "&x"]}],
-                [{"push": ["&x"]}, {"imul": ["&x", "&y", "&y"]}], ["&i", "&i"], [{"mov": ["&x", "&x"]}]):
+                [{"push": ["&x"]}, {"imul": ["&x", "&y", "&y"]}], ["&i", "&i"], [{"mov": ["&x", "&x"]}],
+                # a capture followed by an item that fits a LATER operand than the adjacent one (capture must not grow over ',')
+                [{"imul": ["&x", "%r8"]}], [{"imul": ["&x", "%r8d"]}], [{"imul": ["&x", "&y"]}, {"push": ["&y"]}],
+                [{"imul": ["0x1", "&x", "%r8d"]}], [{"mov": ["&x", "0x1"]}], [{"imul": ["&x", "&x"]}]):
         for cfg in ((False, False), (False, True)):
             rules.append(e1.RuleCase("C", pat, "c", cfgs=(cfg,), want=W))
     return rules
@@ -184,6 +187,25 @@ D25 = ["%rax", "%rbx", "%rcx", "%rdx", "%rsi", "%rdi", "%r8", "%r9", "%r10", "%r
        "%edx", "%esi", "%edi", "%r8d", "%r9d", "%r10d", "%r11d", "%r12d"]
 
 
+def fam_d_family_late():
+    """a register-family name whose group number is >= 10 (ten plain captures first), with later occurrences at other widths"""
+    names = [f"&n{k}" for k in range(1, 11)]
+    pre = [{"mov": [names[k], names[k + 1]]} for k in range(0, 10, 2)]
+    rules = []
+    for first, later in (("&genreg-9.64", "&genreg-9.32"), ("&genreg-9", "&genreg-9.16"), ("&indreg-9.64", "&indreg-9.32"), ("&stackreg-9.64", "&stackreg-9.32")):
+        rules.append(e1.RuleCase("D10fam", pre + [{"push": [first]}, {"push": [later]}], "d10fam", want=W))
+        rules.append(e1.RuleCase("D10fam", pre + [{"push": [first]}, {"mov": [names[0], later]}], "d10fam", want=W))
+    return rules
+
+
+def fam_d10_listings():
+    base = [("mov", [D25[k], D25[k + 1]]) for k in range(0, 10, 2)]
+    regs = ["%rax", "%eax", "%ax", "%rbx", "%ebx", "%rsi", "%esi", "%rdi", "%rsp", "%esp", "%r8"]
+    out = [base + [("push", [a]), ("push", [b])] for a in regs for b in regs]
+    out += [base + [("push", [a]), ("mov", ["%rax", b])] for a in regs for b in regs]
+    return out
+
+
 def fam_d25():
     """25 distinct operand captures (\\1..\\25), then an instruction checking names i and j"""
     names = [f"&n{k}" for k in range(1, 26)]
@@ -206,7 +228,7 @@ def fam_d(tier):
 
 
 def all_rules(tier):
-    return fam_a(tier) + fam_b(tier) + fam_c(tier) + fam_d(tier) + fam_d25() + fam_e(tier) + fam_f(tier)
+    return fam_a(tier) + fam_b(tier) + fam_c(tier) + fam_d(tier) + fam_d25() + fam_d_family_late() + fam_e(tier) + fam_f(tier)
 
 
 def shards(tier):
@@ -215,7 +237,7 @@ def shards(tier):
 
 def build_lsets(h, tier):
     ls = {"ab": e1.ListingSet(h, ALPHA_AB, bounds(tier)["L_AB"]), "c": e1.ListingSet(h, ALPHA_C, 2),
-          "d": e1.ExplicitListingSet(h, fam_d_listings(h)), "d25": e1.ExplicitListingSet(h, fam_d25_listings()), "f": e1.ListingSet(h, ALPHA_F, 2)}
+          "d": e1.ExplicitListingSet(h, fam_d_listings(h)), "d25": e1.ExplicitListingSet(h, fam_d25_listings()), "d10fam": e1.ExplicitListingSet(h, fam_d10_listings()), "f": e1.ListingSet(h, ALPHA_F, 2)}
     for fam in FAM_REGS:
         l1, l2 = fam_e_listings(fam)
         ls["e_" + fam] = e1.ExplicitListingSet(h, l1)
